@@ -191,3 +191,56 @@ impl Rng for SharedRng {
         self.0.fill(arr)
     }
 }
+
+/// A third-party context written directly on the public `Ctxt` trait: a frame is a plain list of
+/// pairs, `open_root` stores exactly what it is given (no de-duplication) and `open_push` /
+/// `open_disabled` are the TRAIT DEFAULTS (`open_root(props.and_props(current))`, `open_push(Empty)`).
+/// So the current properties list the innermost frame's pairs first and the shadowed outer ones
+/// after them - a legal `Props` (first value of a key wins).  Spec constant CtxForms, "stack".
+#[derive(Clone, Copy, Default)]
+pub struct StackCtxt;
+
+#[derive(Clone, Default)]
+pub struct StackProps(pub Vec<(emit::Str<'static>, emit::value::OwnedValue)>);
+
+impl Props for StackProps {
+    fn for_each<'kv, F: FnMut(emit::Str<'kv>, emit::Value<'kv>) -> std::ops::ControlFlow<()>>(&'kv self, mut for_each: F) -> std::ops::ControlFlow<()> {
+        for (k, v) in &self.0 {
+            for_each(k.by_ref(), v.by_ref())?;
+        }
+        std::ops::ControlFlow::Continue(())
+    }
+}
+
+thread_local! {
+    static STACK_CURRENT: std::cell::RefCell<StackProps> = std::cell::RefCell::new(StackProps::default());
+}
+
+impl emit::Ctxt for StackCtxt {
+    type Current = StackProps;
+    type Frame = StackProps;
+
+    fn open_root<P: Props>(&self, props: P) -> Self::Frame {
+        let mut frame = StackProps::default();
+        let _ = props.for_each(|k, v| {
+            frame.0.push((k.to_owned(), v.to_owned()));
+            std::ops::ControlFlow::Continue(())
+        });
+        frame
+    }
+
+    fn enter(&self, frame: &mut Self::Frame) {
+        STACK_CURRENT.with(|c| std::mem::swap(&mut *c.borrow_mut(), frame));
+    }
+
+    fn with_current<R, F: FnOnce(&Self::Current) -> R>(&self, with: F) -> R {
+        let current = STACK_CURRENT.with(|c| c.borrow().clone());
+        with(&current)
+    }
+
+    fn exit(&self, frame: &mut Self::Frame) {
+        STACK_CURRENT.with(|c| std::mem::swap(&mut *c.borrow_mut(), frame));
+    }
+
+    fn close(&self, _: Self::Frame) {}
+}
